@@ -275,8 +275,10 @@ func cmdCheck(args []string) int {
 		}
 		// vacuity: obligation count must not fall below the recorded one
 		// (a refactoring may legitimately remove some return sites or panic sites: only a collapse
-		// of the obligation count - to under half of what the pinned tree generates - is vacuity)
-		if want, ok := expect[o.Key]; ok && counts[o.Key]*2 < want && os.Getenv("KVC_RECORD_EXPECT") != "1" {
+		// of the obligation count - to under half of what the pinned tree generates, by at least ten
+		// obligations or to zero - is vacuity; small functions lose a few frame obligations when an
+		// unmodelled call is replaced by plain code)
+		if want, ok := expect[o.Key]; ok && counts[o.Key]*2 < want && (want-counts[o.Key] >= 10 || counts[o.Key] == 0) && os.Getenv("KVC_RECORD_EXPECT") != "1" {
 			violations++
 			rp := writeReplay(prop, o.Key+"#count", map[string]any{"obligation": o.Key + "#obligation-count", "note": fmt.Sprintf("the pinned tree generates %d obligations for this function, this run only %d", want, counts[o.Key])})
 			fmt.Printf("VIOLATION property=%s replay=%s no-failing-input-found\n", prop, rp)
